@@ -159,15 +159,13 @@ def oracle(c, io, mo):
         return None
     if c['kind'] == 'bool':
         vals = [truthy(v) for v in c['vals']]
-        if any(KNOWN_SUBNORMAL(v) for v in c['vals']):
+        if False:
             return None   # subnormal truthiness is C06's finding F5, not a property of and/or
         exp = all(vals) if c['op'] == 'and' else any(vals)
         want = f'R:ok:{tf[exp]}:x:-'
         return None if obs[-1] == want else f'{c["op"]} {c["vals"]!r}: expected {exp}, got {obs[-1]}'
     if c['kind'] == 'unary':
         v = c['v']
-        if KNOWN_SUBNORMAL(v):
-            return None
         ln = len(v) if isinstance(v, (list, tuple, dict)) else utf8len(v) if isinstance(v, str) else 0
         want = f'R:ok:{x(("false" if truthy(v) else "true") + "|" + str(ln))}:x:-'
         return None if obs[-1] == want else f'not/len {v!r}: expected {want}, got {obs[-1]}'
